@@ -561,3 +561,19 @@ PROPS["C09"]._v = PROPS["C09"]._v + [V_LEXNEXT]
 PROPS["C09"].assumptions = PROPS["C09"].assumptions + [
     "V-lexnext: which raw tokens reach the parser (terminator rule), for a token stream of any length; next_token is external (an abstract stream), so what the raw "
     "tokens of a given text ARE - whitespace, comments, carriage returns skipped - is decided only by the bounded Kani lexer units"]
+
+
+# C02: a scanner index that is not a character boundary makes Scanner::range (a `&str` slice) panic
+PROPS["C02"]._k = PROPS["C02"]._k + [props_lexer.C18_UNITS[1]] + props_lexer.C03_SCANNER_UNITS
+
+
+# Lexer::next_int - integer literals (C03 no panic / no mid-character slice; C06 literal overflow; C09 digit separators)
+V_LEXINT = VUnit("lex_int", "lex_int", ["lexer::Lexer::next_int"])
+ALL_V += [V_LEXINT]
+PROPS["C02"]._v = ALL_V
+for _p in ("C03", "C06", "C09"):
+    PROPS[_p]._v = PROPS[_p]._v + [V_LEXINT]
+    PROPS[_p].assumptions = PROPS[_p].assumptions + [
+        "V-lexint: the scanner is (text, position) with its byte index = byte_off(text, position) (proved step by step for the real scanner by the Kani units "
+        "c18_next_char_step / c03_scanner_range_in_bounds); str::parse::<i64>, char::is_ascii_digit, str::replace are assumed std contracts; `panic!` is a call "
+        "with precondition false"]
